@@ -27,7 +27,10 @@ EXPLANATION = (
     "(R16.3) the set of written columns equals the component's get_component_input columns. (R16.4) for each "
     "single/bulk pair and each std-type/parameter pair: equal defaults of corresponding parameters, equal written "
     "column sets, corresponding validators. (R16.5) `:type x: ..., default V` in the docstring equals the signature "
-    "default. Not decided: dtype preservation and index uniqueness at run time (pandapower helpers are trusted).")
+    "default. (R16.6) a create call changes the addressed table(s) only: with the std-type and component-toolbox "
+    "helpers inlined (copies kept as fresh objects), no store and no mutating method call of a create function targets "
+    "an object whose possible origins (through element access, views, conditionals and .get) include net.std_types, "
+    "net.fluid, net.user_pf_options or net.component_list. Not decided: dtype preservation and index uniqueness at run time (pandapower helpers are trusted).")
 ASSUMPTIONS = ["pandapower's _get_index_with_check / _check_element / _check_branch_element raise on duplicate indices and unknown junctions",
                "add_new_component only adds an empty table (schema registration)"]
 TECHNIQUE = "CFG reachability with validator/writer classification, def-use of parameters into reference columns, sibling table agreement, docstring/signature agreement"
